@@ -206,6 +206,8 @@ def machine_spec(draw, profile="general", tier="quick"):
         step = {"sus": sus, "asg": asg, "idle": draw(st.sampled_from([0, 0, 0, 1, 1, 2, 3, 6]))}
         if profile in ("suspend", "twins", "branches", "general") and asg and draw(st.integers(0, 9)) == 0:
             step["for"] = draw(st.sampled_from([1, 2]))
+        if draw(st.integers(0, 29)) == 0:
+            step["other_executor"] = True
         steps.append(step)
     return {"tps": tps, "pools": pools, "cpus": cpus, "ram": ram, "over": over, "multi": multi, "pipes": pipes,
             "steps": steps}
@@ -307,6 +309,13 @@ class Episode:
     # -- one step -------------------------------------------------------------------------------
     def run(self):
         for step in self.spec["steps"]:
+            if step.get("other_executor"):
+                # another, unrelated executor is created in the same process while this one has live containers
+                from eudoxia.executor import Executor
+                Executor(num_pools=1, cpus_per_pool=4, ram_gb_per_pool=16, ticks_per_second=self.spec["tps"],
+                         allow_memory_overcommit=False, multi_operator_containers=True)
+                if any(m.active or m.suspending for m in self.mp):
+                    self.out.label("other_executor_created_while_containers_live")
             self.do_tick(step["sus"], step["asg"], step.get("for", 0))
             if self.ended:
                 return
